@@ -16,9 +16,10 @@ EXPLANATION = (
     "ActiveTagValueProvider (get and []) and through a CompositeActiveTagValueProvider over a dict, over a nested provider "
     "and with the owning provider in second position each evaluate the callable again (the composite's category cache must "
     "not freeze a value). A8: group_active_tags_by_category evaluated on a tag list in which "
-    "the tags of one category are separated by another category's tag yields exactly one group per category.")
-NOT_DECIDED = ("the comparison semantics of user-supplied compare functions, the regular expression that recognises "
-               "active tags on concrete tag strings, custom prefixes/separators on concrete strings")
+    "the tags of one category are separated by another category's tag yields exactly one group per category. A9: the "
+    "matcher's constructor evaluated with default and custom prefixes / value separator; the compiled tag pattern (constant "
+    "folded) applied to ~60 concrete tags reads exactly PREFIX.with_CATEGORY<sep>VALUE tags as active tags.")
+NOT_DECIDED = ("the comparison semantics of user-supplied compare functions; tag texts beyond the sampled universe of A9")
 TECHNIQUE = "static analysis: exhaustive abstract evaluation of the active-tag decision code over small token universes (truth tables), provider-class exploration for the unknown-category path, effect rule on lazy values"
 
 
@@ -28,5 +29,6 @@ def run(chk, ix, tier):
     rules_active.check_exclude_composition(chk, ix)
     rules_active.check_negation_and_values(chk, ix)
     rules_active.check_grouping(chk, ix)
-    for r, n in (("A1", 100), ("A2", 5), ("A3", 10), ("A5", 4), ("A6", 4), ("A7", 6), ("A8", 1)):
+    rules_active.check_tag_pattern(chk, ix)
+    for r, n in (("A1", 100), ("A2", 5), ("A3", 10), ("A5", 4), ("A6", 4), ("A7", 6), ("A8", 1), ("A9", 40)):
         chk.require_instances(r, n)
